@@ -266,6 +266,22 @@ impl Population {
                 fixed.push(FileSpec::new(FileCfg::layout(Some(1024), Some(2), 1).with_codec(c, lv), EntrySpec::Explicit(e.clone())));
             }
         }
+        // one stored block of 17 MiB (a reader-side cap on the block length would trip here)
+        {
+            let shapes = vec![Shape { klen: 1, vlen: 2 }, Shape { klen: 2, vlen: 17 << 20 }, Shape { klen: 3, vlen: 5 }];
+            fixed.push(spec_shapes(FileCfg::layout(None, None, 1), &shapes));
+        }
+        // the opposite extreme: constant values in large blocks, which every codec shrinks by an
+        // order of magnitude or more (a decompressor-side plausibility guard would trip here)
+        {
+            let h = vlib::report::hex;
+            let e: Vec<(String, String)> = (0..40u32).map(|i| (h(&i.to_be_bytes()), h(&vec![0u8; 3000]))).collect();
+            for (c, lv) in CODECS_ONE {
+                for b in [None, Some(1usize << 16)] {
+                    fixed.push(FileSpec::new(FileCfg::layout(b, None, 1).with_codec(c, lv), EntrySpec::Explicit(e.clone())));
+                }
+            }
+        }
         let mut ends = Vec::new();
         let mut t = 0;
         for g in &groups {
